@@ -216,6 +216,119 @@ def exec_calls(ctx, pc, tally, notes):
     return {"callables": ncall, "targets": meta["targets"], "forms_per_target": meta["cases"], "cases": n, "by_form": dict(by_arity)}, samples
 
 
+# --------------------------------------------------------------------------- domain 1b: operator forms
+IXVAL = {"none": None, "i0": 0, "i1": 1, "im1": -1, "i2": 2, "im2": -2, "i5": 5, "im5": -5, "i100": 100, "im100": -100,
+         "i2p31": 1 << 31, "im2p31": -(1 << 31), "i2p62": 1 << 62, "im2p62": -(1 << 62), "i2p64": 1 << 64}
+
+
+def ix_value(code, n):
+    if code in IXVAL:
+        return IXVAL[code]
+    return {"ix_len": n, "ix_lenm1": n - 1, "ix_mlen": -n, "ix_mlen1": -n - 1, "ix_mlen2": -n - 2}.get(code, "junk")
+
+
+def ix_class(code, n, name):
+    """position of an index relative to the length n of the receiver, as a signature fragment"""
+    v = ix_value(code, n)
+    if v is None:
+        return ""
+    if v == "junk":
+        return "%s=%s" % (name, code)
+    if name == "step":
+        return "step=0" if v == 0 else ("step<0" if v < 0 else "step>0") + ("(huge)" if abs(v) >= 1 << 31 else "")
+    if v == 0:
+        return name + "=0"
+    if v >= 1 << 31:
+        return name + "=huge"
+    if v <= -(1 << 31):
+        return name + "=-huge"
+    if v > 0:
+        return name + ("=len" if v == n else "<len" if v < n else ">len")
+    return name + (">=-len" if v >= -n else "=-len-1" if v == -n - 1 else "<-len-1")
+
+
+def op_text(c):
+    t = c["src"]
+    for var, a in zip("xyzw", c["a"]):
+        t = re.sub(r"\b%s\b" % var, "<%s>" % a, t)
+    return t
+
+
+def prep_ops(ctx):
+    cfg = "INIT Init\nNEXT Next\nINVARIANTS TypeOK NoSymbolicReceiver Emit\nPOSTCONDITION Post\n"
+    r = ctx.tlc_ok("C02MCOps", "C02MCOps.cfg", cfg_text=cfg, workers=8, heap="8g", timeout=3000, env={"C02_TIER": ctx.tier})
+    meta = meta_of(r["out"])
+    forms, codes = meta["forms"], meta["codes"]
+    f = ctx.path("ops.ndjson")
+    n = 0
+    by_form = collections.Counter()
+    with open(f, "w") as out:
+        for l in r["out"].split("\n"):
+            if l.startswith('"O['):
+                fi, a = json.loads(tla_unquote(l)[1:])
+                n += 1
+                fm = forms[fi - 1]
+                by_form[fm["dom"]] += 1
+                out.write(json.dumps({"id": n, "form": fm["name"], "src": fm["src"], "stmt": fm["stmt"], "a": [codes[i - 1] for i in a]},
+                                     separators=(",", ":")) + "\n")
+    r["out"] = ""
+    if n != meta["declared"]:
+        raise vlib.MachineryError("TLC declared %d operator cases but printed %d" % (meta["declared"], n))
+    ctx.log("operators: %d forms, %d cases declared and emitted by TLC" % (len(forms), n))
+    return {"file": f, "n": n, "meta": meta, "by_form": dict(by_form)}
+
+
+def exec_ops(ctx, po, tally, notes):
+    n, meta = po["n"], po["meta"]
+    codes = meta["codes"]
+    kind = dict(zip(codes, meta["kinds"]))
+    recs, summ = supervise(ctx, "op", po["file"], "ops", cpu_ms=500, stack_mb=16, batch=3000, par=8, sample=max(1, n // 5), lazy_gc=True)
+    if summ["ran"] != n or summ["idsum"] != n * (n + 1) // 2:
+        raise vlib.MachineryError("coverage guard: %d operator cases declared, harness ran %d" % (n, summ["ran"]))
+    tally.add(n, summ)
+    ctx.log("operators: ran %d, classes %s, %d children" % (summ["ran"], dict(summ["by_class"]), summ["children"]))
+    lens = {}
+    p = ctx.vh(["c02-codes", "-codes", ",".join(codes)])
+    for l in p.stdout.split("\n"):
+        if l.strip():
+            d = json.loads(l)
+            lens[d["code"]] = d["len"] if d["len"] >= 0 else 3
+    unbounded = set(meta["unbounded"])
+    groups = collections.defaultdict(list)
+    for ab in recs:
+        if not ab.get("what"):
+            continue
+        c = ab["case"]
+        if ab["what"] == "hang" and unbounded & set(c["a"]):
+            key = ("hang", "unbounded")
+        else:
+            key = (ab["what"], c["form"], kind.get(c["a"][0], "?"), norm_msg(ab.get("fatal") or ab.get("detail")) if ab["what"] != "hang" else "")
+        groups[key].append(ab)
+    for key in groups:   # smallest first: operands in the order of the specification's code list
+        groups[key].sort(key=lambda ab: ([codes.index(a) if a != "none" else -1 for a in reversed(ab["case"]["a"][1:])], codes.index(ab["case"]["a"][0])))
+
+    def sig_of(key, ab):
+        c = ab["case"]
+        if key == ("hang", "unbounded"):
+            return "hang:operator-iterates-unbounded-range"
+        if c["form"] in ("index", "slice2", "slice3"):
+            nlen = lens.get(c["a"][0], 3)
+            names = {"index": ["index"], "slice2": ["start", "stop"], "slice3": ["start", "stop", "step"]}[c["form"]]
+            parts = [ix_class(a, nlen, nm) for a, nm in zip(c["a"][1:], names)]
+            parts = [p_ for p_ in reversed(parts) if p_]          # step first, then stop, then start
+            return "op:%s/%s/%s" % (c["form"].rstrip("23") if c["form"] != "index" else "index", key[2], ",".join(parts) or "defaults")
+        return "op:%s/%s/args=%s" % (c["form"], ",".join(kind.get(a, "?") for a in c["a"]), ",".join(c["a"]))
+
+    def what_of(ab):
+        extra = ""
+        if ab["what"] == "hang" and unbounded & set(ab["case"]["a"]):
+            extra = " [forms that walk range(2^62) to its end outside the step budget: %s]" % ", ".join(sorted({a["case"]["src"] for a in groups[("hang", "unbounded")]}))
+        return op_text(ab["case"]) + extra
+    confirm(ctx, "op", groups, what_of, sig_of, cpu_ms=10000, stack_mb=64, notes=notes, par=3)
+    samples = [{"op": op_text(s["case"]), "result": s["result"]["class"], "detail": s["result"].get("detail", "")} for s in recs if s.get("sample")]
+    return {"forms": len(meta["forms"]), "cases": n, "by_domain": po["by_form"]}, samples
+
+
 # --------------------------------------------------------------------------- domain 2: graphs
 CORE = {"list", "dict", "tuple"}
 
@@ -503,15 +616,17 @@ def run(ctx):
     tally, notes = Tally(), []
     per, samples = {}, []
     ctx.build()
-    with concurrent.futures.ThreadPoolExecutor(3) as ex:
+    with concurrent.futures.ThreadPoolExecutor(4) as ex:
         # TLC runs one at a time (parallel JVMs are slow here); the harness runs overlap with them
         srcs = prep_src(ctx)
         f3 = ex.submit(exec_src, ctx, srcs, tally, notes)
         calls = prep_calls(ctx)
         f1 = ex.submit(exec_calls, ctx, calls, tally, notes)
+        ops = prep_ops(ctx)
+        f4 = ex.submit(exec_ops, ctx, ops, tally, notes)
         graphs = prep_graphs(ctx)
         f2 = ex.submit(exec_graphs, ctx, graphs, tally, notes)
-        for name, f in (("calls", f1), ("graphs", f2), ("sources", f3)):
+        for name, f in (("calls", f1), ("operators", f4), ("graphs", f2), ("sources", f3)):
             per[name], s = f.result()
             samples += s[:3]
     ctx.notes += notes
@@ -525,7 +640,7 @@ def run(ctx):
         "a case that exceeds its CPU limit is re-run alone twice with 10 s / 20 s of CPU (sources: 15 / 30 min) before it counts as not returning; range(2^62) stands for values whose complete iteration is infeasible",
         "host values of the pool honour the Value/Iterable contracts (a host value that lies about Len is a host bug, not covered)",
         "arbitrary byte strings that are not derived from the grammar model or a declared shape are not explored (fuzzing is a different technique)"]
-    return ctx.finish(rule="TLC enumerates (1) target x argument forms: arity 0-2 exhaustive over the pool (quick: arity 2 over the 10-value sub-pool), thorough also arity 3 by a "
+    return ctx.finish(rule="TLC enumerates (1b) every operator form (index, slices, binary/unary/augmented operators, attribute and assignment forms) x operand tuples: x[i:j:k] over receivers x 20^3 index codes incl. len-relative ones, all ordered pairs for binary operators; (1) target x argument forms: arity 0-2 exhaustive over the pool (quick: arity 2 over the 10-value sub-pool), thorough also arity 3 by a "
                            "pairwise-covering array over 23 values; keyword forms; (2) all constructions of value graphs with <= 3 nodes and <= 1 (quick) / 3 later edges x every "
                            "node x 17 operations; (3) all leftmost derivations of the compact grammar within the budget, single-token mutations of a seeded "
                            "subset, every stress shape at depths 2^k and at the 64 KiB limit, deep run-time data. distinct_nontrivial = cases that reach the code "
